@@ -326,9 +326,9 @@ ApplyObject(h, o) ==
     [] o.op = "MapIdO" ->
          {Res(Ok(NewRef(h)), Append(h, Cell("O", c.e)))}
     [] o.op = "Merge" ->
-         \* fresh object; argument wins on shared keys.  Whether nested containers coming from the
-         \* receiver / the argument are shared or deep-copied is not fixed by C06/C09: all four
-         \* combinations are allowed (the code copies the receiver's and shares the argument's).
+         \* fresh object; argument wins on shared keys and its values are taken as they are (C06: values are held by
+         \* reference, "Merge prefers the argument's value"); whether the nested containers that come from the RECEIVER
+         \* are shared or deep-copied is not fixed by C06/C09 (the code copies them): both are allowed.
          LET a == h[o.j]
              Build(copyR, copyA) ==
                LET src == [k \in DOMAIN c.e |-> IF a.e[k] # Absent THEN a.e[k] ELSE c.e[k]]
@@ -341,7 +341,7 @@ ApplyObject(h, o) ==
                           IN Go(s[1], k + 1, Append(acc, s[2]))
                    g == Go(h, 1, <<>>)
                IN Res(Ok(Ref(Len(g[1]) + 1)), Append(g[1], Cell("O", g[2])))
-         IN {Build(cr, ca) : cr \in BOOLEAN, ca \in BOOLEAN}
+         IN {Build(cr, FALSE) : cr \in BOOLEAN}
 
 ApplyGo(h, o) ==
   LET r == o.r
@@ -396,6 +396,8 @@ Apply(h, o) ==
     [] o.op = "KeyOf" -> IF KeysOf(h[o.r], o.v) = {} THEN {Res(Panic, h)}
                          ELSE {Res(Ok(V("str", k)), h) : k \in KeysOf(h[o.r], o.v)}
     \* String() / FormatString(n): text only, the receiver is unchanged (C09); the text itself is C01/C02/C16's business
+    \* the program creates and drops thousands of unrelated values (fills whatever tables the library keeps): no effect
+    [] o.op = "Churn" -> {Res(Ok(V("none", 0)), h)}
     [] o.op = "Text" -> {Res(Ok(V("none", 0)), h)}
     \* GetTF(path): the value step-by-step navigation reaches, panic when the path does not resolve (C10)
     [] o.op = "GetTF" -> IF Resolve(h, o.r, o.vs) = Undef THEN {Res(Panic, h)} ELSE {Res(Ok(Resolve(h, o.r, o.vs)), h)}
